@@ -10,6 +10,7 @@ import (
 	"strconv"
 	"strings"
 	"sync"
+	"time"
 
 	"github.com/couchbase/nitro"
 	"github.com/couchbase/nitro/skiplist"
@@ -232,6 +233,44 @@ func runDelta(in *mvInput, r *rand.Rand, n int, sink *CaseSink) {
 		// a collection worker exists only once the instance has a writer
 		e2.apply(mvOp{Op: "neww"})
 		snap2.Close()
+	}
+	// oracle 3 (C11): every single-bit damage of the first item of every non-empty delta file must make
+	// LoadFromDisk (in a child: a panic in a loader goroutine cannot be recovered) fail, not crash and
+	// not succeed with other content
+	damaged := 0
+	for k := 0; bad == "" && damaged < 3; k++ {
+		p := filepath.Join(dir, "delta", "shard-"+strconv.Itoa(k))
+		orig, err := os.ReadFile(p)
+		if err != nil {
+			break
+		}
+		if len(orig) <= 8 {
+			continue
+		}
+		// bytes 0..3 length prefix, then the payload: for KV items its first two bytes are the key length
+		for _, off := range []int{4, 5, 6} {
+			if off >= len(orig)-4 {
+				continue
+			}
+			bit := byte(1) << uint(r.Intn(8))
+			mod := append([]byte(nil), orig...)
+			mod[off] ^= bit
+			os.WriteFile(p, mod, 0644)
+			damaged++
+			res, fail := runChild(20*time.Second, "child-load", "-dir", dir, "-cmp", fmt.Sprint(in.Cmp), "-delta", "true", "-conc", "2")
+			switch {
+			case fail == "hang":
+				bad, sig = fmt.Sprintf("LoadFromDisk did not return within 20s on a backup with bit %#x of delta/shard-%d[%d] flipped", bit, k, off), "c11-hang"
+			case fail != "":
+				bad, sig = fmt.Sprintf("LoadFromDisk crashed on a backup with bit %#x of delta/shard-%d[%d] flipped (the payload of a delta item): %s", bit, k, off, fail), "c11-panic"
+			case res.Ok && fmt.Sprint(res.Items) != fmt.Sprint(hexItems(want)):
+				bad, sig = fmt.Sprintf("LoadFromDisk returned success with different content on a backup with bit %#x of delta/shard-%d[%d] flipped", bit, k, off), "c11-silent"
+			}
+			if bad != "" {
+				break
+			}
+		}
+		os.WriteFile(p, orig, 0644)
 	}
 	rec := &mvInput{Mode: "delta", Cmp: in.Cmp, MM: in.MM, GenSeed: in.GenSeed, GenN: in.GenN, Rate: in.Rate, Fine: in.Fine}
 	idx := sink.Add(coq, rec, fmt.Sprintf("delta-cmp%d-mm%v", in.Cmp, in.MM), len(delta) >= 1 && changed >= 2 && len(want) >= 3)
